@@ -57,7 +57,7 @@ def registry():
     return reg
 
 
-set_registry_factory(P, registry)
+for _pp in ("C19",): set_registry_factory(_pp, registry)
 
 
 # =================================================================================== local: FileLock
@@ -357,7 +357,9 @@ def s3provider(h: H, g, cls="S3LockProvider", locked=False):
     h.reg.theory_methods[("utcnow", "__sub__")] = T[("utcnow", "__sub__")]
     T[("timedelta", "total_seconds")] = lambda I, o, a, k: SXReal(z3.BoolVal(False), z3.IntVal(0), o.fields["s"])
     prov = h.obj(cls, s3=TheoryObj("s3client"), bucket="bkt", key="locks/metadata.lock", timeout=SXReal(z3.BoolVal(False), z3.IntVal(0), z3.Real("timeout")),
-                 lease_seconds=lease, lock_id=lock_id, is_locked=locked, _lease_deadline=None, _heartbeat_thread=None,
+                 lease_seconds=lease, lock_id=lock_id, is_locked=locked,
+                 _lease_deadline=(SOpt(c.fresh_bool("lease_deadline_none"), SXReal(z3.BoolVal(False), z3.IntVal(0), c.fresh("lease_deadline", z3.RealSort()))) if locked else None),
+                 _heartbeat_thread=None,
                  _stop_heartbeat=TheoryObj("event"), _etag=(SInt(c.fresh_int("own_etag")) if locked else None), _state_lock=TheoryObj("rlock"))
     return prov, lock_id, lease
 
@@ -442,7 +444,7 @@ def h_is_held_s3(h: H):
     prov, lock_id, lease = s3provider(h, g, locked=locked)
     w = s3lock_world(h, g)
     h.reg.contracts["s3_consistency:is_permanent_s3_error"] = lambda I, fv, a, k: I.ctx.flip("permanent")
-    out, val = h.run(f"{LP}:S3LockProviderBase.is_held", [prov])
+    out, val = h.call(h.I.getattr(prov, "is_held"), [])
     gets = [e for e in w["log"] if e[0] == "get"]
     h.ensure("HELD-S3:never-raises", out == "ok", detail=repr(val) if out != "ok" else "")
     if out == "ok" and pyops.truth(val) is True:
@@ -462,7 +464,7 @@ def h_release_s3(h: H):
     prov, lock_id, lease = s3provider(h, g, locked=True)
     w = s3lock_world(h, g)
     h.reg.contracts[f"{LP}:S3LockProviderBase._stop_heartbeat_thread"] = lambda I, fv, a, k: None
-    out, val = h.run(f"{LP}:S3LockProviderBase.release", [prov])
+    out, val = h.call(h.I.getattr(prov, "release"), [])
     dels = [e for e in w["log"] if e[0] == "delete"]
     h.ensure("REL-S3:release-never-raises", out == "ok")
     h.ensure("REL-S3:not-held-afterwards", prov.fields["is_locked"] is False)
